@@ -38,7 +38,6 @@ PARTIAL = [
     "is not the pandas intersection: C04_concat_inner_zero_columns, open finding D111)",
     "C04_plain_wf is stated for Projection parents over a frame: over a 1-d input (labels of a reduction result) the scalar "
     "collapse fires for a list selection (C04_reduction_counterexample; open finding D37)",
-    "C04_suffix_wf_partial / C04_suffix_values_partial need a non-empty suffix (C04_suffix_counterexample; D38)",
     "C04_binop_wf_partial / C04_binop_values_partial need both frame operands to have the output columns "
     "(C04_binop_counterexample; D39)",
     "C04_passthrough_table_partial: Categorize, Corr, Cov, Mode reach plain_column_projection although they are not "
